@@ -16,12 +16,6 @@ Fixpoint zlist_eqb (a b : list Z) : bool :=
     address parses), and the stored Sudoers.Contracts read back afterwards *)
 Record sudo_step := mk_sudo_step { ss_add : bool; ss_cs : list Z; ss_ok : bool; ss_after : list Z }.
 
-Inductive omap_op :=
-| OBuild (ks : list Z)    (* SortedMap_String(map built from ks) *)
-| OSet (k : Z)
-| ODelete (k : Z)
-| OUnion (ks : list Z).
-
 Inductive case :=
 | CDiff (replicas : list (list nat))                       (* replica differential: canonical ids per replica *)
 | CSudo (init : list Z) (steps : list sudo_step)           (* sudo sub-model *)
@@ -42,19 +36,11 @@ Fixpoint sudo_mismatch (c : cfg) (π : sched) (stored : list Z) (steps : list su
       negb (zlist_eqb stored' (ss_after s)) || sudo_mismatch c π (ss_after s) t
   end.
 
-Definition omap_apply (c : cfg) (π : sched) (op : omap_op) (om : omap) : omap :=
-  match op with
-  | OBuild ks => om_build c (π [0]) ks
-  | OSet k => om_set k om
-  | ODelete k => om_delete k om
-  | OUnion ks => om_union c (π [1]) (π [2]) ks om
-  end.
-
 Fixpoint omap_mismatch (c : cfg) (π : sched) (om : omap) (ops : list (omap_op * list Z)) : bool :=
   match ops with
   | [] => false
   | (op, seen) :: t =>
-      let om' := omap_apply c π op om in
+      let om' := omap_apply c π [] op om in
       negb (zlist_eqb (om_keys om') seen) || omap_mismatch c π om' t
   end.
 
